@@ -12,13 +12,26 @@ import math
 import random
 from fractions import Fraction
 
-from common.framework import PropertyCheck, frac_str, case_hash
+from common.framework import PropertyCheck, frac_str, case_hash, short
 
 import c04_lm as L
 
 
+_coprime = getattr(Fraction, "_from_coprime_ints", None)
+
+
 def S2F(s):
-    return "-inf" if s == "-inf" else Fraction(s)
+    if s == "-inf":
+        return "-inf"
+    if _coprime is not None and isinstance(s, str):
+        # "n/d" strings written by frac_str are in lowest terms (hundreds of thousands of them in a large
+        # advance case: skip the gcd)
+        n, _, d = s.partition("/")
+        try:
+            return _coprime(int(n), int(d) if d else 1)
+        except ValueError:
+            pass
+    return Fraction(s)
 
 
 def fsum(a, b):
@@ -113,7 +126,17 @@ class C04(PropertyCheck):
             "max_iters=0 and step limits far beyond the finishing depth; advance cases: random dyadic tensors "
             "incl. -inf, every floating dtype (log_probs_prev and log_probs_t possibly of different dtypes; "
             "2^-3 grid when a 16-bit dtype takes part), contiguous / strided / sliced / permuted storage, "
-            "out-of-vocabulary prefix tokens, malformed arguments. non-trivial (search): >= 2 "
+            "out-of-vocabulary prefix tokens, malformed arguments. SIZE CLASSES, a fixed set of 50 large cases "
+            "per quick run (4 sets + BeamSearch at 2^17 candidates in thorough) with everything else drawn as for the small cases: BeamSearch "
+            "(exact and float mode, every model kind) and beam_search_advance (tensors regenerated from a seed in "
+            "the case) with V, width, Kp in each of (100,300], (300,600], (600,2000], >2000 (values next to powers "
+            "of two and to the bucket edges, up to 4099), width*V resp. Kp*V next to 2^13, 2^15 (BeamSearch quick) "
+            "and 2^17 (beam_search_advance; BeamSearch in thorough), batches of 8..33, 64..100, 101..130 (also with "
+            "the only late finishers at the front / at the back of the batch), step limits resp. prefix lengths of "
+            "16..33, 63..100, 101..130 (paths that cannot end early, no step limit at all, eos unlikely at every "
+            "step); their history -> scores tables are built on demand (every history the searched model was called "
+            "on + every prefix of a returned path; the driver reports a live history it needs and does not find). "
+            "non-trivial (search): >= 2 "
             "finite paths and a pruning happened, or batch elements finish at different steps; (advance): "
             "K < candidates. distinct by the case dict")
     assumptions = [
@@ -136,7 +159,16 @@ class C04(PropertyCheck):
         "half that margin on every selection) is re-checked by the driver on every float case; a constant margin m on "
         "every selection implies the theorem's step-dependent hypothesis for eps <= m / (2 max_iters): C04_margin_rule",
         "log_softmax and the elementwise operations of the harness models give a row the same bits whatever "
-        "else is in the batch (measured: the unbatched table reproduces the batched run to <= 5% of the tolerance)",
+        "else is in the batch (measured: the unbatched table reproduces the batched run to <= 5% of the tolerance; "
+        "bit-identical for V up to 4099 and batches up to 515 rows in every floating dtype)",
+        "size classes: the table of a large case holds the unbatched model's scores of the histories the searched "
+        "model was called on and of the prefixes of the returned paths (not of all V^T histories); the Lean model "
+        "stops and reports when it needs another one (compare() then reports a disagreement unless a tie preceded); "
+        "sepB (hypothesis of C04_skeleton_stable) is re-evaluated by the driver through sepFast (= sepB, "
+        "C04_sepFast_eq) when width * width * V <= 2^18, not beyond",
+        "a finite path that was not ended by eos has the length of the step limit (all slots if finish_all_paths "
+        "or eos unset, the best slot otherwise): predicate C04.length, tie-agnostic, a consequence of the modelled "
+        "loop (not a separate theorem)",
     ]
     exhaustive = {"quick": False, "thorough": False}
     quick_budget_s = 70
@@ -242,9 +274,11 @@ class C04(PropertyCheck):
         return None if x <= lo else "101..300" if x <= 300 else "301..600" if x <= 600 else \
             "601..2000" if x <= 2000 else ">2000"
 
-    def _size_search_case(self, rng, dim, bucket):
+    def _size_search_case(self, rng, dim, bucket, variant=None):
         """One large BeamSearch case; `dim` says which dimension is large: "V", "width", "batch", "steps"
-        (max_iters), "cands" (width * V). Tables are built on demand (`lm.lazy`)."""
+        (max_iters), "cands" (width * V). Tables are built on demand (`lm.lazy`). `variant`: "front" / "back"
+        (batch: the elements that finish late sit only at the front / only at the back of the batch), "rare"
+        (steps: eos unlikely at every step, all paths run to completion)."""
         width_small = [2, 2, 3, 4, 5, 7, 8, 9, 16, 17]
         batch = rng.choice([None, None, 1, 2, 3])
         qbits = rng.choice([8, 12, 12])
@@ -273,8 +307,9 @@ class C04(PropertyCheck):
         elif dim == "steps":
             T = rng.choice(bucket)
             V = rng.choice([2, 3, 5])
-            width = rng.choice([1, 2, 3, 5, 8])
+            width = rng.choice([1, 1, 2, 2, 3, 5, 8])
             batch = rng.choice([None, None, 2, 3])
+            qbits = 12              # (a hundred steps on the 2^-8 grid are bound to meet a tie)
             lm["cap"] = T + 2       # |score| <= 30 T < 2^12: every sum stays float32-exact on the 2^-12 grid
         else:
             width, V = rng.choice(bucket)
@@ -308,10 +343,55 @@ class C04(PropertyCheck):
             via = rng.choice(["instance", "subclass"])
         zeros = lm.get("kind", "hash") not in ("lookup", "rec") and rng.random() < 0.15
         hard = False
-        if eos is not None and lm.get("kind") != "lookup":
+        if dim == "steps" and eos is not None:
+            if lm.get("kind") == "lookup":
+                eos = None          # (no way to keep a table model from emitting eos early)
+            else:
+                lm["eos_late"] = True       # a long search needs paths that cannot end early
+        if dim == "steps" and eos is not None:
+            force = [rng.choice([T - 1, T - 1, T - 2, T // 2, T + 3, 3]) for _ in range(n)]
+            force[rng.randrange(n)] = rng.choice([T - 1, T - 2, T + 3])     # someone runs (nearly) all the steps
+            hard = rng.random() < 0.5
+        elif eos is not None and lm.get("kind") != "lookup":
             # elements finish at different depths (early ones stay frozen for the rest of a long search)
             force = [rng.choice([None, None, 0, 1, 2, 3, T // 2, T - 1]) for _ in range(n)]
-        if dim == "steps" and lm.get("kind") != "lookup" and rng.random() < 0.3:
+        if variant == "rare":
+            # a long search in which paths end at different steps: eos is possible but unlikely everywhere,
+            # ended paths stay in the beam next to live ones, all paths are run to completion
+            if lm.get("kind") == "lookup":
+                lm.update({"kind": "hash"})
+                lm.pop("order", None), lm.pop("sos", None), lm.pop("table_seed", None)
+                lm["beta"] = 0.5
+            V = max(V, 3)
+            eos = rng.randrange(V)
+            fa, zeros, force, hard = True, False, None, False
+            width = rng.choice([3, 5, 8])
+            lm.pop("eos_late", None)
+            lm["eos_rare"] = rng.choice([2, 3, 4])
+        elif variant in ("front", "back") or (
+                dim in ("batch", "steps") and batch is not None and batch > 1 and lm.get("kind") != "lookup"
+                and rng.random() < 0.5):
+            # stragglers: nearly every element is forced to finish within the first steps and stays frozen,
+            # one to three elements ANYWHERE in the batch (the last one included) cannot finish before the
+            # step limit (or beyond it): the exit test and the freezing must look at every element
+            V = max(V, 3)
+            if eos is None:
+                eos = rng.randrange(V)
+            if dim == "batch":
+                T = rng.choice([4, 5, 6])
+            if lm.get("kind") == "lookup":
+                lm.update({"kind": "hash"})
+                lm.pop("order", None), lm.pop("sos", None), lm.pop("table_seed", None)
+                lm["beta"] = 0.5
+            force = [rng.choice([0, 1, 1, 2]) for _ in range(n)]
+            k = min(n, rng.choice([1, 1, 2, 3]))
+            late = list(range(k)) if variant == "front" else list(range(n - k, n)) if variant == "back" else \
+                rng.sample(range(n), k) + ([n - 1] if rng.random() < 0.4 else [])
+            for i in late:
+                force[i] = rng.choice([T - 1, T - 1, T + 3])
+            hard, zeros = True, False
+            lm["eos_late"] = True
+        elif dim == "steps" and lm.get("kind") != "lookup" and rng.random() < 0.3:
             # no step limit at all: the search runs until eos, which every element is forced to emit only
             # after about as many steps
             V = max(V, 3)
@@ -338,7 +418,9 @@ class C04(PropertyCheck):
             Kp = max(1, math.ceil(width / V) + rng.choice([-1, 0, 1, 5]))
         elif dim == "Kp":
             Kp = rng.choice(bucket)
-            width = rng.choice([1, 2, 5, Kp - 1, Kp, Kp + 1, Kp * V - 1, Kp * V + 2])
+            width = rng.choice([1, 2, 5, Kp - 1, Kp, Kp + 1] + ([Kp * V - 1, Kp * V + 2] if Kp * V <= 2100 else []))
+            if Kp > 600:
+                N = 1
         elif dim == "N":
             N = rng.choice(bucket)
             width = rng.choice([1, 2, 3, Kp * V, Kp * V + 2, max(1, Kp * V - 1)])
@@ -394,7 +476,7 @@ class C04(PropertyCheck):
 
     def _size_cases(self, rng, tier):
         """the large cases of one run: every dimension of every stream in every size bucket"""
-        reps = 1 if tier == "quick" else 6
+        reps = 1 if tier == "quick" else 4
         for _ in range(reps):
             for b in self.SIZE_BUCKETS:
                 yield self._size_search_case(rng, "V", b)
@@ -405,9 +487,12 @@ class C04(PropertyCheck):
                 yield self._size_advance_case(rng, "Kp", b)
             for b in self.BATCH_BUCKETS:
                 yield self._size_search_case(rng, "batch", b)
+                yield self._size_search_case(rng, "batch", b, "front")
+                yield self._size_search_case(rng, "batch", b, "back")
                 yield self._size_advance_case(rng, "N", b)
             for b in self.STEP_BUCKETS:
                 yield self._size_search_case(rng, "steps", b)
+                yield self._size_search_case(rng, "steps", b, "rare")
                 yield self._size_advance_case(rng, "S", b)
             # width * V next to 2^13, 2^15 (search: also 2^17 beyond the quick tier), Kp * V up to 2^17
             for i, b in enumerate(self.CAND_BUCKETS):
@@ -880,6 +965,15 @@ class C04(PropertyCheck):
         if len(self._flagmap) > 5000:
             self._flagmap.clear()
         self._flagmap[case_hash(case)] = (flags, "error" in m)
+        if flags.get("n_missing"):
+            # the table holds the unbatched model's scores of every history the searched model was called on
+            # (or, for small cases, of all histories); the Lean model followed a live path that is not among
+            # them and stopped there. After a tie the two may legitimately part ways.
+            if tie_like(case, flags):
+                return []
+            return [f"step {flags.get('steps')}: the model needs the language model's scores of "
+                    f"{flags['n_missing']} live histories the implementation never asked the language model "
+                    f"about, e.g. {flags.get('missing')}; implementation: {short(impl, 200)}"]
         if "error" in impl:
             if "error" in m and self.ERR.get(impl["error"]) == m["error"]:
                 return []
@@ -890,11 +984,6 @@ class C04(PropertyCheck):
             if flags.get("ninf_choice"):
                 return []
             return [f"model raises {m['error']} ({m.get('detail')}), implementation returned a value"]
-        if flags.get("n_missing") and not tie_like(case, flags):
-            # the table holds the unbatched model's scores of every history the searched model was called on
-            # (or, for small cases, of all histories): the Lean model follows a live path that is not among them
-            return [f"the model needs the language model's scores of {flags['n_missing']} live histories the "
-                    f"implementation never asked the language model about, e.g. {flags.get('missing')}"]
         if is_float(case) and flags.get("sep") is False and not tie_like(case, flags):
             # the margin rule by which float-mode paths are compared must imply the hypothesis of the
             # proved stability theorem (C04_skeleton_stable: every selection decided by more than `margin`)
@@ -1016,6 +1105,19 @@ class C04(PropertyCheck):
                 if k < len(ch) and not close(case, ch[k], s["score"]):
                     fails.append((f"element {n}: path {p} reported {s['score']}, the LM's chained score of it "
                                   f"is {ch[k]}", "C04.score"))
+        # where a returned path may stop (whatever way ties were broken): a finite path that was not ended by eos
+        # is as long as the step limit - for every slot when all paths are run to completion or eos is unset, for
+        # the best slot otherwise (its element is finished only when that path has ended)
+        T = case["max_iters"]
+        for n, slots in enumerate(impl["elems"]):
+            for k, s in enumerate(slots):
+                if s["score"] == "-inf" or (k > 0 and eos is not None and not case["finish_all"]):
+                    continue
+                p = s["path"]
+                if not (eos is not None and p and p[-1] == eos) and len(p) != T:
+                    fails.append((f"element {n} slot {k}: path of length {len(p)} neither ends in eos={eos} nor "
+                                  f"has the length of the step limit max_iters={T}: {short(p, 80)}", "C04.length"))
+                    break
         for msg in impl.get("state", []):
             fails.append((msg, "C04.state_follows"))
         if not impl.get("lm_contract", True) and not flags.get("ninf_choice"):
